@@ -27,26 +27,31 @@ LEVEL = "exploration"
 SHARDS = {"quick": 8, "thorough": 16}
 BUDGET = {"quick": 26.0, "thorough": 400.0}
 REQUIRE = {
-    "streams": 4000,
-    "deliveries": 60000,
-    "oracle_a_partition_checks": 60000,
-    "oracle_a_steps_checked": 200000,
-    "oracle_b_naming_streams": 3000,
-    "oracle_b_tokens_matched": 10000,
-    "oracle_c_nofire_equal": 20000,
-    "oracle_c_fire_equal": 20000,
-    "oracle_c_cut_left_pending": 5000,
-    "oracle_c_timer_flushed_pending": 3000,
-    "oracle_d_garbage_streams": 300,
+    "streams": 2000,
+    "deliveries": 30000,
+    "oracle_a_partition_checks": 40000,
+    "oracle_a_steps_checked": 60000,
+    "oracle_b_naming_streams": 500,
+    "oracle_b_tokens_matched": 2000,
+    "oracle_c_nofire_equal": 8000,
+    "oracle_c_fire_equal": 15000,
+    "oracle_c_cut_left_pending": 30000,
+    "oracle_c_timer_flushed_pending": 15000,
+    "oracle_d_garbage_streams": 150,
     "oracle_e_get_input_cases": 300,
-    "oracle_e_realfd_cases": 50,
-    "table_entries_seen": 300,
+    "oracle_e_realfd_cases": 60,
+    "table_entries_seen": 400,
     "x10_reports": 2000,
     "sgr_reports": 2000,
     "cpr_reports": 300,
-    "mode:utf8": 1000,
-    "mode:wide": 1000,
-    "mode:narrow": 1000,
+    "oracle_d_garbage_tokens_passed": 150,
+    "oracle_e_equal": 200,
+    "mode:utf8": 500,
+    "mode:wide": 500,
+    "mode:narrow": 500,
+    "random_token_streams": 100,
+    "random_mutated_streams": 50,
+    "random_soup_streams": 50,
     "reach:display.escape.KeyqueueTrie.read_mouse_info": 1000,
     "reach:display.escape.KeyqueueTrie.read_sgrmouse_info": 1000,
     "reach:display.escape.KeyqueueTrie.read_cursor_position": 1000,
@@ -427,17 +432,31 @@ def split_at(data: bytes, points):
     return out
 
 
-def cut_class(toks, spans, cuts):
-    """coarse class of what the cuts go through (token kinds), for signatures"""
-    kinds = set()
+def cut_class(toks, spans, cuts, data=b""):
+    """coarse family of what the first non-boundary cut goes through (which reader was waiting for more
+    input), for signatures: x10 / sgr / csi (named CSI sequences and CPR) / ss3 / esc / multibyte / plain"""
     for c in cuts:
-        k = "boundary"
+        inside = False
         for t, (a, b) in zip(toks, spans):
             if a < c < b:
-                k = t.kind
+                inside = True
                 break
-        kinds.add(k)
-    return "+".join(sorted(kinds)) or "none"
+        if not inside:
+            continue
+        p = data.rfind(b"\x1b", max(0, c - 24), c)
+        if p < 0:
+            return "multibyte" if data[c - 1] >= 0x80 else "plain"
+        seg = data[p:c]
+        if seg[1:3] == b"[M":
+            return "x10"
+        if seg[1:3] == b"[<":
+            return "sgr"
+        if seg[1:2] == b"[":
+            return "csi"
+        if seg[1:2] == b"O":
+            return "ss3"
+        return "esc"
+    return "boundary" if cuts else "none"
 
 
 def first_diff(a, b):
@@ -525,7 +544,7 @@ class Judge:
                 if f.error is not None:
                     return [(self.err_sig(f, mode), f"{list(data)} in {mode} mode cut at {cuts} timer fired at {fires}: {f.error[3]}")]
                 for tail, msg in f.problems:
-                    out.append((f"C05|parse_input|{tail}|{kind}|cut-in:{cut_class(toks, spans, cuts)}", msg + f" cuts={cuts} fires={fires}"))
+                    out.append((f"C05|parse_input|{tail}|fragmented", msg + f" cuts={cuts} fires={fires}"))
                 if fires:
                     expected = []
                     for seg in split_at(data, sorted(set(fires) & set(cuts))):
@@ -544,7 +563,7 @@ class Judge:
                     )
                     out.append(
                         (
-                            f"C05|frag|{kind}|{how}|cut-in:{cut_class(toks, spans, cuts)}",
+                            f"C05|frag|{kind}|{how}|cut-in:{cut_class(toks, spans, cuts, data)}",
                             f"{mode} {list(data)} cuts={cuts} fires={fires}: got {f.events} expected {expected} (first difference at event {i})",
                         )
                     )
@@ -870,9 +889,31 @@ class Runner:
         self.seen = {}
         self.nstream = 0
 
+    @staticmethod
+    def base(sig):
+        return sig.split("|cut-in:")[0]
+
+    def reduce_cuts(self, case, sig):
+        """the cut-in class of a signature must not depend on irrelevant cuts: find a 1-cut (else 2-cut)
+        sub-schedule that reproduces the same base signature and return (case, its signature)"""
+        if "|cut-in:" not in sig or len(case["cuts"]) <= 1:
+            return case, sig
+        base = self.base(sig)
+        j = Judge(self.env)
+        cuts, fires = case["cuts"], case["fires"]
+        subs = [[c] for c in cuts] + [list(p) for p in itertools.combinations(cuts, 2)][:15]
+        for sub in subs:
+            c2 = _norm_case(dict(case, cuts=sub, fires=[f for f in fires if f in sub]), self.env)
+            for s2, _m in j.judge(c2):
+                if self.base(s2) == base:
+                    return c2, s2
+        return case, base + "|cut-in:several-cuts-needed"
+
     def report(self, case, found):
         ctx = self.ctx
         for sig, msg in found:
+            if not ctx.replaying:
+                case, sig = self.reduce_cuts(_norm_case(case, self.env), sig)
             if sig not in self.seen and not ctx.replaying:
                 small = shrink(self.env, case, sig)
                 again = [m for s, m in Judge(self.env).judge(small) if s == sig]
